@@ -1,15 +1,29 @@
 package cs
 
+import (
+	"os"
+
+	"package-operator.run/internal/packages/verifsim/store"
+)
+
 // AllMonitors returns a fresh instance of every monitor; a check reports only
 // its own property's violations, the others are listed as incidental.
 func AllMonitors() []Monitor {
 	return []Monitor{
+		&MonC01{},
+		&MonC02{},
 		&MonC03{},
+		&MonC04{},
+		&MonC05{},
 	}
 }
 
 func init() {
+	Plans["C01"] = planC01
+	Plans["C02"] = planC02
 	Plans["C03"] = planC03
+	Plans["C04"] = planC04
+	Plans["C05"] = planC05
 }
 
 func (w *World) setupCommon(hostedChance int) {
@@ -32,4 +46,87 @@ func planC03(w *World, spec RunSpec) {
 	w.StartProcesses()
 	w.Disturb(w.Cfg.Ndist)
 	w.finish()
+}
+
+// withForceAdoption draws the self-bootstrap forced-adoption mode for this run.
+func (w *World) withForceAdoption(chance int) func() {
+	if w.Scn.Chance(1, chance, "force-adoption") {
+		w.Cfg.ForceAdoption = true
+		os.Setenv("PKO_FORCE_ADOPTION", "true")
+		return func() { os.Unsetenv("PKO_FORCE_ADOPTION") }
+	}
+	os.Unsetenv("PKO_FORCE_ADOPTION")
+	return func() {}
+}
+
+func planC01(w *World, spec RunSpec) {
+	s := w.Scn
+	w.setupCommon(4)
+	defer w.withForceAdoption(6)()
+	w.drawFaultMix("err-before", "lost-response", "crash", "compaction", "duplicate")
+	w.Cfg.Faults["drift"] = true
+	w.Cfg.Ndist = 60 + s.Intn(300, "ndist")
+	w.Scenario = GenOS(w, OSProfile{MaxSets: 3, Delegation: true, Preexisting: 5, Intruder: "boundary", LateCreate: true})
+	w.StartProcesses()
+	w.Disturb(w.Cfg.Ndist)
+	w.finish()
+}
+
+func planC02(w *World, spec RunSpec) {
+	s := w.Scn
+	w.setupCommon(4)
+	w.drawFaultMix("err-before", "lost-response", "crash", "compaction", "duplicate")
+	w.Cfg.Ndist = 80 + s.Intn(400, "ndist")
+	w.Scenario = GenOS(w, OSProfile{MaxSets: 3, Delegation: true, Lifecycle: true, LateCreate: true})
+	w.StartProcesses()
+	w.Disturb(w.Cfg.Ndist)
+	w.finish()
+}
+
+func planC04(w *World, spec RunSpec) {
+	s := w.Scn
+	w.setupCommon(4)
+	w.drawFaultMix("err-before", "lost-response", "crash", "compaction", "duplicate")
+	w.Cfg.Faults["drift"] = true
+	w.Cfg.Ndist = 80 + s.Intn(400, "ndist")
+	w.Scenario = GenOS(w, OSProfile{MaxSets: 3, Delegation: true, Lifecycle: true, LateCreate: true, Intruder: "granular", Finalizers: true, NoForge: true})
+	ensureTeardownOp(w)
+	w.StartProcesses()
+	w.Disturb(w.Cfg.Ndist)
+	w.finish()
+}
+
+func planC05(w *World, spec RunSpec) {
+	s := w.Scn
+	w.setupCommon(4)
+	w.Cfg.Granular = !s.Chance(1, 4, "pass-atomic")
+	w.drawFaultMix("err-before", "lost-response", "crash", "compaction", "duplicate")
+	w.Cfg.Faults["drift"] = true
+	w.Cfg.Ndist = 80 + s.Intn(400, "ndist")
+	w.Scenario = GenOS(w, OSProfile{MaxSets: 3, Delegation: true, Lifecycle: true, LateCreate: true, Intruder: "granular", Finalizers: true, Preexisting: 2})
+	ensureTeardownOp(w)
+	w.StartProcesses()
+	w.Disturb(w.Cfg.Ndist)
+	w.finish()
+}
+
+// ensureTeardownOp makes sure the scenario contains at least one archive/delete.
+func ensureTeardownOp(w *World) {
+	sc := w.Scenario
+	g := sc.Facts["os"].(*OSGen)
+	for _, op := range sc.UserOps {
+		if len(op.Label) > 6 && (op.Label[:6] == "delete" || op.Label[:7] == "archive") {
+			return
+		}
+	}
+	name := g.Names[w.Scn.Intn(len(g.Names), "teardown-target")]
+	key := store.Key{Group: PKOGroup, Kind: g.Kind, Namespace: g.NS, Name: name}
+	switch w.Scn.Intn(3, "teardown-kind") {
+	case 0:
+		sc.UserOps = append(sc.UserOps, UserOp{Label: "delete " + name, Do: func(w *World) { _ = w.TP("user", w.Mgmt).Delete(key, "Background") }})
+	case 1:
+		sc.UserOps = append(sc.UserOps, UserOp{Label: "archive " + name, Do: func(w *World) { setLifecycle(w, key, "Archived") }})
+	case 2:
+		sc.UserOps = append(sc.UserOps, UserOp{Label: "delete --cascade=orphan " + name, Do: func(w *World) { _ = w.TP("user", w.Mgmt).Delete(key, "Orphan") }})
+	}
 }
